@@ -8,7 +8,7 @@ From MV Require Import Gen.GenConst Gen.GenWrapTol Model.WrapModel Model.WrapExe
          (Q2Qc cyl_hull_rtol) (Q2Qc cyl_hull_atol) (Q2Qc cyl_base_rtol) (Q2Qc cyl_base_atol)
          (Q2Qc seg_close_rtol) (Q2Qc seg_close_atol)
          (Q2Qc seg_r_lo) (Q2Qc seg_r_hi) (Q2Qc seg_z_lo) (Q2Qc seg_z_hi)
-         (Q2Qc cir_sing_rtol).
+         (Q2Qc cir_sing_rtol) (Q2Qc cir_sing_z_rtol).
 
 Definition mu0_src : Qc := Q2Qc mu0_exported.            (* magpylib.mu_0 *)
 Definition mu0_stub : Qc := q 1 1048576.                 (* 2**-20, patched into the field modules *)
